@@ -4,9 +4,81 @@
 // only comments; it is never compiled into the package.
 package framing
 
+//@ pred encInv(e) := e != nil && e.drbg != nil && drbgInv(e.drbg)
+//@ pred decInv(d) := d != nil && d.drbg != nil && drbgInv(d.drbg)
+//@     && (d.nextLength == 0 || (16 <= d.nextLength && d.nextLength <= 1446))
+//@     && (d.nextLengthInvalid ==> d.nextLength != 0)
+//@     && (d.nextLength != 0 ==> seq(d.nextNonce) == cat(seq(d.nonce.prefix), be64(d.nonce.counter)) && d.nonce.counter != 0)
+// needMore: the decoder cannot make progress on the buffered bytes
+//@ pred needMore(d, buf) := (d.nextLength == 0 && len(buf.content) < 2) || (d.nextLength != 0 && len(buf.content) < d.nextLength)
+
+//@ func (boxNonce).bytes(nonce, out) (err)
+//@   serves C06 C05 C10
+//@   modifies *out
+//@   ensures [C06:hint_split] seq(out) == cat(seq(out[0:16]), seq(out[16:24]))
+//@   ensures [C06:nonce_layout] nonce.counter != 0 ==> err == nil && seq(out) == cat(seq(nonce.prefix), be64(nonce.counter))
+//@   ensures [C06:nonce_wrap_is_error] nonce.counter == 0 ==> err == ErrNonceCounterWrapped && unchanged(seq(out))
+
+//@ func (*boxNonce).init(nonce, prefix) ()
+//@   serves C06 C10
+//@   requires len(prefix) == 16
+//@   modifies nonce.prefix, nonce.counter
+//@   ensures [C06:counter_starts_at_1] nonce.counter == 1 && seq(nonce.prefix) == seq(prefix)
+
+//@ func NewEncoder(key) (encoder)
+//@   serves C06 C10
+//@   requires len(key) == 72
+//@   ensures [C06:key_layout] fresh(encoder) && encInv(encoder) && seq(encoder.key) == sub(seq(key), 0, 32) && seq(encoder.nonce.prefix) == sub(seq(key), 32, 48)
+//@       && encoder.drbg.sip.hkey == sub(seq(key), 48, 64) && seq(encoder.drbg.ofb) == sub(seq(key), 64, 72) && len(encoder.drbg.sip.absorbed) == 0
+//@   ensures [C06:counter_starts_at_1] encoder.nonce.counter == 1
+
+//@ func NewDecoder(key) (decoder)
+//@   serves C06 C10
+//@   requires len(key) == 72
+//@   ensures [C06:key_layout] fresh(decoder) && decInv(decoder) && seq(decoder.key) == sub(seq(key), 0, 32) && seq(decoder.nonce.prefix) == sub(seq(key), 32, 48)
+//@       && decoder.drbg.sip.hkey == sub(seq(key), 48, 64) && seq(decoder.drbg.ofb) == sub(seq(key), 64, 72) && len(decoder.drbg.sip.absorbed) == 0
+//@   ensures [C06:counter_starts_at_1] decoder.nonce.counter == 1 && decoder.nextLength == 0 && !decoder.nextLengthInvalid
+
 //@ func (*Encoder).Encode(encoder, frame, payload) (n, err)
-//@   serves C09 C10
-//@   nobody contract stated here, body obligations generated under C06/C01 (see below)
-//@   modifies encoder.*, elems(frame)
-//@   ensures err == nil ==> n == len(payload) + 18 && len(payload) <= 1430 && len(frame) >= n
-//@   ensures err != nil ==> n == 0
+//@   serves C01 C06 C09 C10
+//@   requires encInv(encoder) && outside(frame, encoder) && outside(frame, encoder.drbg) && outside(frame, encoder.drbg.sip)
+//@   modifies encoder.nonce.counter, encoder.drbg.sip.absorbed, encoder.drbg.ofb, elems(frame)
+//@   ghost ctr0 := encoder.nonce.counter
+//@   ghost abs0 := encoder.drbg.sip.absorbed
+//@   ghost ofb0 := seq(encoder.drbg.ofb)
+//@   ghost pay0 := seq(payload)
+//@   ensures [C06:encode_errors] (len(payload) > 1430 || len(frame) < len(payload) + 18 || ctr0 == 0) <==> err != nil
+//@   ensures [C01:error_changes_nothing] err != nil ==> n == 0 && unchanged(encoder.nonce.counter, encoder.drbg.sip.absorbed, seq(encoder.drbg.ofb))
+//@   ensures [C06:frame_length] err == nil ==> n == len(payload) + 18 && len(payload) <= 1430 && len(frame) >= n
+//@   ensures [C06:sealed_box] err == nil ==> seq(frame[2:n]) == SEAL(pay0, cat(seq(encoder.nonce.prefix), be64(ctr0)), seq(encoder.key))
+//@   ensures [C06:length_mask] err == nil ==> seq(frame[0:2]) == be16(bxor(len(payload) + 16, unbe(sub(HASH(3, encoder.drbg.sip.hkey, cat(abs0, ofb0)), 0, 2))))
+//@   ensures [C06:counter_advances] err == nil ==> encoder.nonce.counter == (ctr0 + 1) % 18446744073709551616
+//@   ensures [C06:one_block_per_frame] err == nil ==> encoder.drbg.sip.absorbed == cat(abs0, ofb0) && seq(encoder.drbg.ofb) == HASH(3, encoder.drbg.sip.hkey, encoder.drbg.sip.absorbed)
+//@   ensures [C10:encoder_inv] encInv(encoder)
+
+//@ func (*Decoder).Decode(decoder, data, frames) (n, err)
+//@   serves C01 C05 C06 C10
+//@   requires decInv(decoder) && frames != nil && whole(frames) && cap(data) >= 1430 && outside(data, decoder) && outside(data, decoder.drbg) && outside(data, decoder.drbg.sip) && outside(data, frames)
+//@   modifies decoder.nextLength, decoder.nextLengthInvalid, decoder.nextNonce, decoder.nonce.counter, decoder.drbg.sip.absorbed, decoder.drbg.ofb, frames.*, elems(data[0:cap(data)])
+//@   ghost B := frames.content
+//@   ghost L0 := decoder.nextLength
+//@   ghost ctr0 := decoder.nonce.counter
+//@   ghost abs0 := decoder.drbg.sip.absorbed
+//@   ghost ofb0 := seq(decoder.drbg.ofb)
+//@   ghost inv0 := decoder.nextLengthInvalid
+//@   ghost bs := ite(L0 == 0, 2, 0)
+//@   ensures [C01:prefix_consumed] len(frames.content) <= len(B) && frames.content == sub(B, len(B) - len(frames.content), len(B))
+//@   ensures [C01:again_means_need_more] err == ErrAgain ==> needMore(decoder, frames)
+//@   ensures [C01:again_keeps_state] err == ErrAgain && L0 == 0 && len(B) < 2 ==> unchanged(decoder.nextLength, decoder.nextLengthInvalid, decoder.nonce.counter, decoder.drbg.sip.absorbed, seq(decoder.drbg.ofb), frames.content)
+//@   ensures [C01:again_after_length] err == ErrAgain && L0 == 0 && len(B) >= 2 ==> frames.content == sub(B, 2, len(B))
+//@       && decoder.drbg.sip.absorbed == cat(abs0, ofb0) && decoder.nonce.counter == ctr0
+//@       && (!decoder.nextLengthInvalid ==> decoder.nextLength == bxor(unbe(sub(B, 0, 2)), unbe(sub(HASH(3, decoder.drbg.sip.hkey, cat(abs0, ofb0)), 0, 2))))
+//@   ensures [C01:again_with_length_pending] err == ErrAgain && L0 != 0 ==> unchanged(decoder.nextLength, decoder.nextLengthInvalid, decoder.nonce.counter, decoder.drbg.sip.absorbed, frames.content)
+//@   ensures [C05:deliver_only_opened] err == nil ==> !decoder.nextLengthInvalid && !inv0 && 0 <= n && n <= 1430 && len(B) - len(frames.content) == bs + n + 16
+//@       && OPENOK(sub(B, bs, bs + n + 16), cat(seq(decoder.nonce.prefix), be64(ctr0)), seq(decoder.key))
+//@       && seq(data[0:n]) == OPEN(sub(B, bs, bs + n + 16), cat(seq(decoder.nonce.prefix), be64(ctr0)), seq(decoder.key))
+//@   ensures [C05:success_advances_counter] err == nil ==> decoder.nonce.counter == (ctr0 + 1) % 18446744073709551616 && decoder.nextLength == 0 && ctr0 != 0
+//@   ensures [C06:length_demask] err == nil && L0 == 0 ==> n + 16 == bxor(unbe(sub(B, 0, 2)), unbe(sub(HASH(3, decoder.drbg.sip.hkey, cat(abs0, ofb0)), 0, 2)))
+//@   ensures [C05:no_advance_on_error] err != nil ==> n == 0 && decoder.nonce.counter == ctr0
+//@   ensures [C05:invalid_length_is_sticky] inv0 ==> decoder.nextLengthInvalid && err != nil
+//@   ensures [C10:decoder_inv] decInv(decoder)
